@@ -75,12 +75,12 @@ func evalAll(c Case) *ev.Violation {
 			var sample interface{}
 			if k == w/2 && mi == 1 {
 				kk := k
-				sample = Case{Script: c.Script, Style: c.Style, Align: c.Align, K: &kk, Mode: mode, Err: c.Err, Rich: c.Rich, Repeat: c.Repeat}
+				sample = Case{Script: c.Script, Style: c.Style, Align: c.Align, K: &kk, Mode: mode, Err: c.Err, Rich: c.Rich, Repeat: c.Repeat, RowClass: c.RowClass}
 			}
 			ev.R().Eval(sample, base*1000003+uint64(k*3+mi)+1, k > 0 || mode != "from", append(cl, "mode-"+mode)...)
 			if v := FaultPoint(c, k, mode, want); v != nil {
 				kk := k
-				ev.R().Fail(ID, Case{Script: c.Script, Style: c.Style, Align: c.Align, K: &kk, Mode: mode, Err: c.Err, Rich: c.Rich, Repeat: c.Repeat}, v)
+				ev.R().Fail(ID, Case{Script: c.Script, Style: c.Style, Align: c.Align, K: &kk, Mode: mode, Err: c.Err, Rich: c.Rich, Repeat: c.Repeat, RowClass: c.RowClass}, v)
 				return v
 			}
 		}
@@ -103,11 +103,15 @@ func caseGen() *rapid.Generator[Case] {
 	key := rapid.Custom(func(t *rapid.T) gen.Item {
 		return gen.S(gen.StringOf([]string{"k", "h1", "h2", "h3", "name", "x y", "n\nl"}, 1, 2).Draw(t, "key"))
 	})
+	anyItem := gen.AnyItem(gen.TokASCII, 1)
 	short := gen.StrItem(append([]string{"\n", "a\nb", "l1\nl2\nl3"}, gen.TokASCII...), 3)
 	long := gen.BoundaryString([]string{"\"", ",", "<", "|", "a\nb"})
 	item := rapid.Custom(func(t *rapid.T) gen.Item {
 		if gen.Rarely(t, "long", 150) {
 			return gen.S(long.Draw(t, "longv")) // buffered writers have sizes: a piece as large as the buffer
+		}
+		if rapid.IntRange(0, 5).Draw(t, "any") == 0 {
+			return gen.NoAddressText(anyItem.Draw(t, "any-item")) // items of every kind: each renderer has its own way with them
 		}
 		return short.Draw(t, "short")
 	})
@@ -122,6 +126,7 @@ func caseGen() *rapid.Generator[Case] {
 		}
 		c.Err = rapid.SampledFrom([]string{"", "", "", "eof", "short", "closed", "epipe", "wrapped", "nocause", "deadline", "canceled", "list"}).Draw(t, "err")
 		c.Rich = rapid.IntRange(0, 3).Draw(t, "rich") == 0
+		c.RowClass = c.Style == "html" && rapid.Bool().Draw(t, "rowclass")
 		bigOneIn := 250
 		if h.Thorough() {
 			bigOneIn = 60
@@ -156,7 +161,7 @@ var ErrKinds = []string{"", "eof", "short", "closed", "epipe", "wrapped", "nocau
 func TestCross(t *testing.T) {
 	s := gen.S
 	tables := [][]gen.Op{
-		{{K: "hdr", Items: []gen.Item{s("k"), s("name"), s("n")}}, {K: "rowitems", Items: []gen.Item{s("a"), s("b\nc"), {K: "int", N: 1}}}, {K: "sep"}, {K: "rowitems", Items: []gen.Item{s("\"q\""), s("<&>|")}}},
+		{{K: "hdr", Items: []gen.Item{s("k"), s("name"), s("n")}}, {K: "rowitems", Items: []gen.Item{s("a"), s("b\nc"), {K: "int", N: 1}}}, {K: "rowitems", Items: []gen.Item{{K: "sns", S: "3x4"}, {K: "sns", S: "text only"}, s("z")}}, {K: "sep"}, {K: "rowitems", Items: []gen.Item{s("\"q\""), s("<&>|")}}},
 		{{K: "hdr", Items: []gen.Item{s("id"), s("what")}}, {K: "rowitems", Items: []gen.Item{s("1"), s("x"), s("beyond the header")}}, {K: "rowitems"}},
 		{{K: "rowitems", Items: []gen.Item{s("no"), s("header")}}, {K: "appendnew"}, {K: "rowadd", Ref: -1, Items: []gen.Item{s("late")}}},
 	}
@@ -170,7 +175,7 @@ func TestCross(t *testing.T) {
 					if i%shards != shard {
 						continue
 					}
-					c := Case{Script: gen.Script{Ops: ops}, Style: st, Err: ek, Rich: rich, Align: []int{0, 2, 3}}
+					c := Case{Script: gen.Script{Ops: ops}, Style: st, Err: ek, Rich: rich, Align: []int{0, 2, 3}, RowClass: st == "html" && i%2 == 0}
 					if v := evalAll(c); v != nil {
 						t.Fatalf("VIOLATION %s (detail in the replay file)", ID)
 					}
@@ -187,14 +192,14 @@ func TestCross(t *testing.T) {
 				if i%shards != shard {
 					continue
 				}
-				c := Case{Script: gen.Script{Ops: tables[0]}, Style: st, Err: ek, Rich: rich, Repeat: 250}
+				c := Case{Script: gen.Script{Ops: tables[0]}, Style: st, Err: ek, Rich: rich, Repeat: 120}
 				if v := evalAll(c); v != nil {
 					t.Fatalf("VIOLATION %s (detail in the replay file)", ID)
 				}
 			}
 		}
 	}
-	ev.R().Sub(ev.SubRun{Name: "cross", Bound: "3 fixed tables x 8 renderers x 10 error values x {plain, rich writer}, every write index x 3 failure modes of each; plus one table of 750 rows (tens of KiB of output) x 8 renderers x 2 error values x {plain, rich}, sampled write indices", Cases: faultPoints, Exhaustive: true})
+	ev.R().Sub(ev.SubRun{Name: "cross", Bound: "3 fixed tables x 8 renderers x 10 error values x {plain, rich writer}, every write index x 3 failure modes of each; plus one table of about 500 rows (tens of KiB of output) x 8 renderers x 2 error values x {plain, rich}, sampled write indices", Cases: faultPoints, Exhaustive: true})
 }
 
 func TestProp(t *testing.T) {
